@@ -355,7 +355,9 @@ def _calls_for(entry):
                 ls = _labels_of(M)
                 yield name, f, [{l: 1 for l in ls}, M], {}
         elif name.startswith("solve_"):
-            for M in (_spin_models() if "so_" in name else _bool_models()):
+            spinf = "so_" in name
+            consts = [{(): 5}, gen.build("PUSO" if spinf else "PUBO", {(): 5}), gen.build("QUSOMatrix" if spinf else "QUBOMatrix", {(): -2})]
+            for M in (_spin_models() if spinf else _bool_models()) + consts:
                 yield name, f, [M], {}
                 yield name, f, [M, True], {}
         elif name == "matrix_to_qubo":
@@ -426,6 +428,9 @@ def _calls_for(entry):
                 yield name, getattr(cls_(D), mname), list(combo), {}
         elif mname in ("to_pubo", "to_puso", "to_qubo", "to_quso", "to_enumerated", "solve_bruteforce", "refresh_free_copy"):
             yield name, getattr(M, mname), [], {}
+            if mname == "solve_bruteforce":
+                Mc = cls_({(): 5})
+                yield name, Mc.solve_bruteforce, [], {}
         elif mname in ("value", "is_solution_valid"):
             for sol in ({l: one for l in ls}, {l: other for l in ls}):
                 yield name, getattr(M, mname), [sol], {}
@@ -501,11 +506,20 @@ EXCLUDED = {
 }
 
 
+NONMUTATING = ("to_pubo", "to_puso", "to_qubo", "to_quso", "to_enumerated", "solve_bruteforce", "value", "is_solution_valid", "convert_solution",
+               "remove_ancilla_from_solution", "subgraph", "subvalue", "subs", "__add__", "__sub__", "__mul__", "__radd__", "__rsub__", "__rmul__")
+
+
 def check_registry(case, st):
     entry = case["entry"]
     n = 0
     for desc, fn, args, kwargs in _calls_for(entry):
         n += 1
+        # the receiver of a non-mutating method is "a model passed to" that method as well
+        recv = getattr(fn, "__self__", None)
+        if recv is not None and entry.split(".")[-1] in NONMUTATING and isinstance(recv, dict):
+            args = list(args) + [recv]
+            fn = (lambda f, k: (lambda *a, **kw: f(*a[:k], **kw)))(fn, len(args) - 1)
         before = [snap(a, order=False) for a in args] + [snap(kwargs)]
         st.transitions += 1
         st.traces += 1
